@@ -80,6 +80,45 @@ def corpus_histories(ids):
     ]
 
 
+def gov_call(frm, contract, method, args, tag, ok=True, accts=()):
+    return dict(tx={"t": "bvm", "from": frm, "to": "c:" + contract, "m": method, "args": args}, frm=frm,
+                body=("bvm", ("done",) if ok else ("fail", False)), invalid=False, tag=tag, opaque=True, accts=list(accts))
+
+
+def audit_admin_history(r, decision_bind="approve", gas=0, extra_transfers=False):
+    """GOVERNED history through the real NodeManager / RoleManager / Governance contracts (4 admins, 3 approvals or
+    2 rejections conclude a proposal): two audit nodes registered, an audit admin registered and approved (the ONE
+    legitimate grant), its node logged out (admin paused), the admin bound to the other node (approved or rejected).
+    Grants are counted for approved REGISTRATIONS only."""
+    admin, n1, n2 = "u:22", "u:20", "u:21"
+    pre = list(X.SEED2) + [{"op": "fund", "acct": a, "amt": "7"} for a in (admin, n1, n2, "u:1", "u:2")]
+    blocks = []
+    pid = [0]
+
+    def proposal(op, concl_tag="vote", grant=None, decision="approve"):
+        blocks.append([op])
+        voters = ["a:0", "a:1", "a:2"] if decision == "approve" else ["a:1", "a:3"]
+        for i, v in enumerate(voters):
+            tx = {"t": "bvm", "from": v, "to": "c:governance", "m": "Vote", "args": [["pid", "a:0", pid[0]], ["s", decision], ["s", "r"]]}
+            last = i == len(voters) - 1
+            if last and grant is not None and decision == "approve":
+                o = dict(tx=tx, frm=v, body=("grant", X.acct_id(grant), True), invalid=False, tag="grant_audit_admin", opaque=True, accts=[grant])
+            else:
+                o = dict(tx=tx, frm=v, body=("bvm", ("done",)), invalid=False, tag=concl_tag if last else "vote", opaque=True, accts=[admin])
+            blk = [o]
+            if extra_transfers and r.random() < 0.5:
+                blk.append(X.op_transfer("u:1", "u:2", str(r.randrange(0, 3))))
+            blocks.append(blk)
+        pid[0] += 1
+    node = lambda n, name: gov_call("a:0", "node", "RegisterNode", [["sa", n], ["s", "nvpNode"], ["s", ""], ["u64", "0"], ["s", name], ["s", "chainA"], ["s", "r"]], "register_node")
+    proposal(node(n1, "nvp1"))
+    proposal(node(n2, "nvp2"))
+    proposal(gov_call("a:0", "role", "RegisterRole", [["sa", admin], ["s", "auditAdmin"], ["sa", n1], ["s", "r"]], "register_audit_admin"), grant=admin)
+    proposal(gov_call("a:0", "node", "LogoutNode", [["sa", n1], ["s", "r"]], "logout_node"), concl_tag="node_logged_out")
+    proposal(gov_call("a:0", "role", "BindRole", [["sa", admin], ["sa", n2], ["s", "r"]], "bind_role"), concl_tag="bind_concluded", decision=decision_bind)
+    return dict(cfg=dict(admins=4, gas=gas, audit=False, bal="1000000000"), pre=pre, blocks=blocks)
+
+
 def build_rows(g, out, flagsets, ids):
     g = X.revive_ops(g)
     rows = []
@@ -199,7 +238,10 @@ def run(ctx):
     open_map, flagsets = flag_setup()
     ids = X.Ids()
     if ctx.model_ok:
-        items = corpus_histories(ids)
+        items = corpus_histories(ids) + [audit_admin_history(ctx.rng, "approve"), audit_admin_history(ctx.rng, "reject"),
+                                         audit_admin_history(ctx.rng, "approve", gas=1, extra_transfers=True)]
+        if not ctx.quick:
+            items += [audit_admin_history(ctx.rng, ctx.rng.choice(["approve", "reject"]), gas=ctx.rng.choice([0, 1, 7]), extra_transfers=True) for _ in range(12)]
         n = 150 if ctx.quick else 2000
         items += [gen_history(ctx.rng, ctx.quick, ids) for _ in range(n)]
         outs, e = X.run_histories(exe, [to_history(g) for g in items])
